@@ -80,6 +80,11 @@ CHECKS = {
    text="Client.Do is executed against scripts of up to 2 (quick)/3 (thorough) server packets drawn from {Data, Totals (0/1 rows or the empty end marker), Progress, Profile, TableColumns, Log, ProfileEvents, Exception (chain depth 1..2), EndOfStream} with all field values, cells and exception codes symbolic, with and without OnResult and with a failing callback at a chosen invocation. Assertions: the callback trace (results with the bound column's contents at callback time, progress, profile, logs, profile events) equals the projection of the script in order; Do returns nil iff the script ended with EndOfStream and no callback failed (incl. the no-OnResult single-block rule); an exception is recovered by errors.As with code/name/message/stack/chain and every code of the chain matches errors.Is.",
    ref="DESIGN.md §4 C03",
    note="bounds: <=2/3 packets, one result column (UInt64), 1-row telemetry blocks, integer fields 7 bit, revisions {54460, 54453, 54419, 51902} in quick (one symbolic revision >= 50264 in thorough), compression off, instrumentation off; non-preemptive schedules only"),
+ "C13": dict(
+   level="model_checking",
+   text="The real Connect/Dial/handshake (two goroutines under the cooperative scheduler) are executed with the client revision AND the server revision as two symbolic integers (every pair), symbolic hello strings, credentials and quota key. Success: negotiated revision == min(client, server), ServerInfo() as sent, client bytes == reference hello + addendum iff min >= 54458 carrying the quota key, then Ping and a Query whose bytes equal the reference encoder at exactly the negotiated revision. Failure (exception, wrong packet, hello cut at every byte, silence): error carrying the exception, no client, the dialed connection closed. Delay: a hello arriving 1s/10s/100s into a 200s handshake timeout is accepted.",
+   ref="DESIGN.md §4 C13",
+   note="bounds: strings 0..1 byte, one query; TLS and real dialing outside; clock is concrete (arrival instants enumerated); known finding: servers older than 54401 with a newer client (hello fields gated on the client's revision) - reported as KNOWN-FINDING by the separate harness VerifC13OldServer"),
 }
 
 NA = {
